@@ -4,6 +4,7 @@ import copy
 
 from .. import AnalysisError
 from ..report import Ob
+from .. import devices as dv
 from ..cfg import calls_at, call_attr, is_self_attr
 from ..norm import Normalizer, single_defs
 from .. import inventory as inv
@@ -217,8 +218,7 @@ def check(ctx):
         bad = None
         if role[0] == 'store':
             v = s.stmt.value if isinstance(s.stmt, ast.Assign) else None
-            if not (s.cls is Env and isinstance(v, ast.List) and not v.elts and any(
-                    isinstance(t, ast.Attribute) and t.attr == '_now' and isinstance(t.ctx, ast.Store) for t in ast.walk(s.func))):
+            if not (s.cls is Env and isinstance(v, ast.List) and not v.elts and s.func is not None and s.func.name in dv.reset_functions(P, Env)[1]):
                 bad = 'the paused list is re-bound outside the reset'
         elif role[0] == 'method':
             if role[1] in MUTATORS or role[1] not in ('copy', 'index', 'count'):
